@@ -649,6 +649,9 @@ func (e *Engine) Run(prop string, ch *kernel.Chooser, st *kernel.Stats) kernel.R
 		st.Inc("probe.two_builders_alive")
 	}
 	nOps := 2 + ch.Choose(22)
+	if e.tier == "thorough" && ch.Bool(1, 4) {
+		nOps += ch.Choose(48) // thorough tier: longer registration histories
+	}
 	var hist []regOp
 	var viol []kernel.Violation
 	add := func(kind, sig, detail string) {
